@@ -19,7 +19,11 @@ Local Open Scope N_scope.
 
 (* ------------------------------------------------------------------ inputs *)
 
-Inductive sop := OGet (k : key) | OPut (k : key) (v : val) | ODel (k : key) | OFail.
+Inductive sop :=
+  | OGet (k : key) | OPut (k : key) (v : val) | ODel (k : key) | OFail
+  (* the reference VM's Transfer action (examples/morpheusvm/actions/transfer.go): balance keys of the
+     actor and of the recipient, amount, and whether the memo is within MaxMemoSize *)
+  | OTransfer (from to : key) (value : N) (memo_ok : bool).
 
 Record action := mkAction {
   a_compute : N;
@@ -36,6 +40,8 @@ Record tx := mkTx {
   t_auth_compute : N;
   t_auth_start : Z; t_auth_end : Z;
   t_size : N;                      (* Transaction.Size(): length of the signed encoding *)
+  t_morpheus : bool;               (* balance handler: false = state/balance PrefixBalanceHandler,
+                                      true = examples/morpheusvm/storage BalanceHandler (deletes at zero) *)
   t_actions : list action }.
 
 Record rules := mkRules {
@@ -108,6 +114,7 @@ Definition subOverflow : N := 2.
 Definition subUnitsConsumed : N := 3.
 Definition subInsufficient : N := 12.
 Definition subOther : N := 13.
+Definition subInvalidBalance : N := 15.   (* morpheusvm storage.ErrInvalidBalance *)
 Definition sub_of_static (e : N) : N := e + 3.   (* E_CHAIN=1 -> 4 ... E_AUTH_NA=7 -> 10 *)
 
 (* ------------------------------------------------------------------ Transaction.PreExecute *)
@@ -128,15 +135,51 @@ Definition pre_execute (r : rules) (fm : manager) (t : tx) (u : dims) (s : view)
   | Some f =>
       match get_balance s (t_sponsor_key t) with
       | None => (subOther, f)
-      | Some b => if b <? f then (subInsufficient, f) else (0, f)
+      | Some b => if b <? f then ((if t_morpheus t then subInvalidBalance else subInsufficient), f) else (0, f)
       end
   end.
 
 (* ------------------------------------------------------------------ actions *)
 
-Inductive aerr := AEFail | AEPerm | AEValue.
-Definition aerr_class (e : aerr) : N := match e with AEFail => 1 | AEPerm => 2 | AEValue => 3 end.
+Inductive aerr := AEFail | AEPerm | AEValue | AEZero | AEMemo | AEBalance | AEOther.
+Definition aerr_class (e : aerr) : N :=
+  match e with AEFail => 1 | AEPerm => 2 | AEValue => 3 | AEZero => 5 | AEMemo => 6 | AEBalance => 7 | AEOther => 9 end.
 Definition aerr_of (e : err) : aerr := match e with EValue => AEValue | _ => AEPerm end.
+
+(* examples/morpheusvm/storage: SubBalance.  Any failure to read a well-formed existing balance is
+   ErrInvalidBalance (the "!ok" test comes before the error test); a zero remainder deletes the key. *)
+Definition sub_balance (s : view) (k : key) (amount : N) : view * (N + aerr) :=
+  match get s k with
+  | inl v =>
+      match parse_u64 v with
+      | None => (s, inr AEBalance)
+      | Some bal =>
+          if bal <? amount then (s, inr AEBalance) else
+          let nbal := bal - amount in
+          if nbal =? 0 then
+            match remove s k with (s', None) => (s', inl 0) | (s', Some e) => (s', inr (aerr_of e)) end
+          else
+            match insert s k (be64 nbal) with (s', None) => (s', inl nbal) | (s', Some e) => (s', inr (aerr_of e)) end
+      end
+  | inr _ => (s, inr AEBalance)
+  end.
+
+(* AddBalance: absent = 0; checked add *)
+Definition add_balance (s : view) (k : key) (amount : N) : view * (N + aerr) :=
+  let cur := match get s k with
+             | inl v => match parse_u64 v with Some b => inl b | None => inr AEOther end
+             | inr ENotFound => inl 0
+             | inr e => inr (aerr_of e)
+             end in
+  match cur with
+  | inr e => (s, inr e)
+  | inl bal =>
+      match add_chk bal amount with
+      | None => (s, inr AEBalance)
+      | Some nbal =>
+          match insert s k (be64 nbal) with (s', None) => (s', inl nbal) | (s', Some e) => (s', inr (aerr_of e)) end
+      end
+  end.
 
 (* ScriptAction.Execute: output = for every get, [0] if absent else 1 :: len :: value *)
 Fixpoint run_ops (s : view) (ops : list sop) (out : list N) : view * (list N + aerr) :=
@@ -161,6 +204,17 @@ Fixpoint run_ops (s : view) (ops : list sop) (out : list N) : view * (list N + a
           | (s', Some e) => (s', inr (aerr_of e))
           end
       | OFail => (s, inr AEFail)
+      | OTransfer from to value memo_ok =>
+          if value =? 0 then (s, inr AEZero) else
+          if negb memo_ok then (s, inr AEMemo) else
+          match sub_balance s from value with
+          | (s1, inr e) => (s1, inr e)
+          | (s1, inl sb) =>
+              match add_balance s1 to value with
+              | (s2, inr e) => (s2, inr e)
+              | (s2, inl rb) => run_ops s2 rest (out ++ [0] ++ be64 sb ++ be64 rb)   (* TransferResult.Bytes() *)
+              end
+          end
       end
   end.
 
@@ -180,20 +234,31 @@ Fixpoint run_actions (s : view) (start : N) (acts : list action) (outs : list (l
 (* Transaction.Execute after a successful PreExecute: deduct the fee, run the actions.
    None = Execute returned an error (the fee could not be deducted). *)
 Definition execute_tx (t : tx) (u : dims) (f : N) (s : view) : option (view * result) :=
-  match get s (t_sponsor_key t) with
-  | inl v =>
-      match parse_u64 v with
-      | None => None
-      | Some b =>
-          if b <? f then None else
-          match insert s (t_sponsor_key t) (be64 (b - f)) with
-          | (s1, None) =>
-              let '(s2, ok, ec, outs) := run_actions s1 (op_index s1) (t_actions t) [] in
-              Some (s2, mkResult ok ec f u outs)
-          | (_, Some _) => None
-          end
+  let deducted : option view :=
+    if t_morpheus t then
+      match sub_balance s (t_sponsor_key t) f with
+      | (s1, inl _) => Some s1
+      | (_, inr _) => None
       end
-  | inr _ => None
+    else
+      match get s (t_sponsor_key t) with
+      | inl v =>
+          match parse_u64 v with
+          | None => None
+          | Some b =>
+              if b <? f then None else
+              match insert s (t_sponsor_key t) (be64 (b - f)) with
+              | (s1, None) => Some s1
+              | (_, Some _) => None
+              end
+          end
+      | inr _ => None
+      end in
+  match deducted with
+  | Some s1 =>
+      let '(s2, ok, ec, outs) := run_actions s1 (op_index s1) (t_actions t) [] in
+      Some (s2, mkResult ok ec f u outs)
+  | None => None
   end.
 
 (* storage handed to the view by the fetcher: the parent values of the declared keys *)
@@ -208,7 +273,7 @@ Definition run_tx (r : rules) (fm : manager) (parent : gmap key val) (ts : Z) (s
   | (0, f) =>
       match execute_tx t u f s with
       | Some (s', res) => (commit s', inl res)
-      | None => (st, inr subInsufficient)
+      | None => (st, inr (if t_morpheus t then subInvalidBalance else subInsufficient))
       end
   | (e, _) => (st, inr e)
   end.
